@@ -1,6 +1,11 @@
 package main
 
 import (
+	"sync/atomic"
+	"regexp"
+	"os/exec"
+	"context"
+	"bytes"
 	"encoding/json"
 	"flag"
 	"fmt"
@@ -399,6 +404,165 @@ func runCheck(eng *Eng, id, tier string, replay, keep bool, only string) int {
 	}
 	wg.Wait()
 
+	// dependency closure: the proof of this property's obligations assumes postconditions of contracted callees. Those
+	// that a proof actually uses (unsat core) belong to the property as well, with the loop, call and frame obligations of
+	// the callee they are proved in -- transitively.
+	var closureFuncs []string
+	closureObls := 0
+	if id != "C14" && os.Getenv("FSV_NO_CLOSURE") == "" {
+		own := map[string]bool{}
+		for _, ft := range tasks {
+			own[ft.con.Full+caseSuffix(ft.con)] = true
+		}
+		relied := map[*FuncContract]map[string]bool{}
+		var rmu sync.Mutex
+		coresOf := func(obls []*Obligation) {
+			var cwg sync.WaitGroup
+			for _, o := range obls {
+				o := o
+				if o.Result == nil || o.Result.Status != "unsat" || o.task == nil || len(o.task.assertTag) == 0 || o.Goal == tTrue {
+					continue
+				}
+				inScope := false
+				for i := range o.task.assertTag {
+					if i < o.NAssert {
+						inScope = true
+						break
+					}
+				}
+				if !inScope {
+					continue
+				}
+				cwg.Add(1)
+				go func() {
+					defer cwg.Done()
+					sem <- struct{}{}
+					defer func() { <-sem }()
+					idx, ok := unsatCore(workDir, o, kf.carveOut(id, o))
+					rmu.Lock()
+					defer rmu.Unlock()
+					for i, tg := range o.task.assertTag {
+						if i >= o.NAssert || (ok && !idx[i]) {
+							continue
+						}
+						if relied[tg.con] == nil {
+							relied[tg.con] = map[string]bool{}
+						}
+						relied[tg.con][tg.src] = true
+					}
+				}()
+			}
+			cwg.Wait()
+		}
+		coresOf(allObls)
+		ctasks := map[*FuncContract]*Task{}
+		included := map[*Obligation]bool{}
+		for round := 0; round < 12; round++ {
+			var fresh []*Obligation
+			var cons []*FuncContract
+			for con := range relied {
+				cons = append(cons, con)
+			}
+			sort.Slice(cons, func(i, j int) bool { return cons[i].Full+caseSuffix(cons[i]) < cons[j].Full+caseSuffix(cons[j]) })
+			for _, con := range cons {
+				if own[con.Full+caseSuffix(con)] || con.Trusted || con.hasClause("summary") {
+					continue
+				}
+				ct := ctasks[con]
+				if ct == nil {
+					fn := eng.funcs[con.Full]
+					if fn == nil {
+						continue
+					}
+					gBV = false
+					ct = newTask(eng, con.Full+caseSuffix(con))
+					func() {
+						defer func() {
+							if r := recover(); r != nil {
+								ct.errorf("internal error while generating VCs for %s: %v", ct.name, r)
+							}
+						}()
+						ct.verifyFunc(fn, con)
+					}()
+					gBV = false
+					ctasks[con] = ct
+					taskList = append(taskList, ct)
+					closureFuncs = append(closureFuncs, ct.name)
+					for _, e := range ct.errs {
+						undecided = append(undecided, ct.name+": "+e)
+					}
+					for k := range ct.assumed {
+						assumed[k] = true
+					}
+					for k := range ct.contractsUsed {
+						contractsUsed[k] = true
+					}
+					for _, c := range ct.covers {
+						c := c
+						covers = append(covers, c)
+						wg.Add(1)
+						go func() {
+							defer wg.Done()
+							sem <- struct{}{}
+							defer func() { <-sem }()
+							r := runPortfolio(workDir, c.Name, c.task.query(c, nil), nil, 4, false)
+							c.Result = &r
+						}()
+					}
+				}
+				for _, o := range ct.obls {
+					if included[o] {
+						continue
+					}
+					take := false
+					switch o.Kind {
+					case "ensures":
+						take = relied[con][o.Src]
+					case "loopinv", "decreases", "call-requires", "frame", "modecase", "sendinv":
+						take = true
+					}
+					if take && only != "" && !strings.Contains(o.Name, only) {
+						take = false
+					}
+					if take {
+						included[o] = true
+						fresh = append(fresh, o)
+					}
+				}
+			}
+			if len(fresh) == 0 {
+				break
+			}
+			for _, o := range fresh {
+				o := o
+				if o.Goal == tTrue {
+					o.Result = &SolverResult{Status: "unsat", Solver: "trivial"}
+					continue
+				}
+				wg.Add(1)
+				go func() {
+					defer wg.Done()
+					sem <- struct{}{}
+					defer func() { <-sem }()
+					extra := kf.carveOut(id, o)
+					r := runPortfolio(workDir, o.Name, o.task.query(o, extra), o.task.modelSyms, timeout, false)
+					if r.Status != "unsat" && r.Status != "sat" {
+						if r2 := runPortfolio(workDir, o.Name+".retry", o.task.query(o, extra), o.task.modelSyms, timeout*5, false); r2.Status == "unsat" || r2.Status == "sat" {
+							r = r2
+						}
+					}
+					o.Result = &r
+				}()
+			}
+			wg.Wait()
+			allObls = append(allObls, fresh...)
+			closureObls += len(fresh)
+			coresOf(fresh)
+		}
+		wg.Wait()
+		sort.Strings(closureFuncs)
+	}
+
 	// verdicts
 	discharged := 0
 	var failed []*Obligation
@@ -581,6 +745,7 @@ func runCheck(eng *Eng, id, tier string, replay, keep bool, only string) int {
 			"samples":                  samples,
 			"functions_under_contract": funcsUnder,
 			"callee_contracts_applied": used,
+			"dependency_closure":       map[string]interface{}{"functions": closureFuncs, "obligations": closureObls, "how": "callee postconditions that occur in an unsat core of one of this property's obligations (z3 5.1.0; all of them when no core is returned), with the loop, call-site and frame obligations of the function they are proved in, transitively"},
 			"inlined_helpers":          inl,
 			"by_backend":               byBackend,
 			"solver_ms_total":          solverMs,
@@ -634,7 +799,10 @@ func loadPropNotes() {
 }
 
 // query renders the SMT-LIB text for one obligation.
-func (t *Task) query(o *Obligation, extra []string) string {
+func (t *Task) query(o *Obligation, extra []string) string { return t.query0(o, extra, false) }
+
+// query0 with named == true names the assumptions that come from callee contracts (|T<i>|), for unsat cores.
+func (t *Task) query0(o *Obligation, extra []string, named bool) string {
 	var b strings.Builder
 	for _, d := range t.decls {
 		b.WriteString(d)
@@ -644,7 +812,11 @@ func (t *Task) query(o *Obligation, extra []string) string {
 	if n > len(t.asserts) {
 		n = len(t.asserts)
 	}
-	for _, a := range t.asserts[:n] {
+	for i, a := range t.asserts[:n] {
+		if named && t.assertTag[i] != nil {
+			fmt.Fprintf(&b, "(assert (! %s :named |T%d|))\n", a, i)
+			continue
+		}
 		b.WriteString("(assert ")
 		b.WriteString(a)
 		b.WriteString(")\n")
@@ -775,3 +947,31 @@ func loadBoundedChecks(id string) []BoundedCheck {
 	}
 	return out
 }
+
+// unsatCore re-solves a discharged obligation with the callee-contract assumptions named and returns the indices (into
+// task.asserts) of those in the core. ok == false: no core obtained (timeout): the caller takes all of them.
+func unsatCore(dir string, o *Obligation, extra []string) (map[int]bool, bool) {
+	q := "(set-option :produce-unsat-cores true)\n" + o.task.query0(o, extra, true) + "(check-sat)\n(get-unsat-core)\n"
+	base := filepath.Join(dir, fmt.Sprintf("%05d_core_%s", atomic.AddInt64(&queryCounter, 1), sanitize(o.Name)))
+	file := base + ".smt2"
+	os.WriteFile(file, []byte(q), 0o644)
+	ctx, cancel := context.WithTimeout(context.Background(), 14*time.Second)
+	defer cancel()
+	cmd := exec.CommandContext(ctx, "z3-new", "-T:10", file)
+	var out bytes.Buffer
+	cmd.Stdout = &out
+	cmd.Stderr = &out
+	cmd.Run()
+	txt := out.String()
+	if !strings.HasPrefix(strings.TrimSpace(txt), "unsat") {
+		return nil, false
+	}
+	res := map[int]bool{}
+	for _, m := range coreNameRe.FindAllStringSubmatch(txt, -1) {
+		n, _ := strconv.Atoi(m[1])
+		res[n] = true
+	}
+	return res, true
+}
+
+var coreNameRe = regexp.MustCompile(`\bT(\d+)\b`)
